@@ -49,6 +49,14 @@ def gen_program(rng):
                 src += [f".globl site{k}", f".hidden site{k}", f"site{k}:", f" .quad {tgt}+{add}"]
                 sites.append((k, tgt, add, al))
                 k += 1
+    # the lowest address of the image is an address like any other (and is 0 at link time in a PIE or shared object)
+    if rng.random() < 0.7:
+        al = rng.choice([1, 8])
+        src += ['.section .data.image_start,"aw",@progbits', f".balign {al}"] + ([" .byte 0x5a"] if al == 1 else [])
+        for tgt in rng.sample(["__ehdr_start", "__executable_start"], rng.randrange(1, 3)):
+            src += [f".globl site{k}", f".hidden site{k}", f"site{k}:", f" .quad {tgt}"]
+            sites.append((k, tgt, 0, al))
+            k += 1
     return "\n".join(src) + "\n", sites
 
 
